@@ -33,7 +33,7 @@ NoBuilder == [live |-> FALSE, root |-> "", m |-> "", p |-> "",
               ownP |-> <<>>, implP |-> <<>>, seenP |-> {}, ownC |-> <<>>, implC |-> <<>>, seenC |-> {},
               fl |-> <<>>]
 
-\* state: [wroot, wprod, wcons, wfl, bs, routes, made, nf, ok]
+\* state: [wroot, wprod, wcons, wfl, bs, routes, made, nf, ok, added]
 \*   wfl: the filters of the WebService (they apply to ALL its routes, whenever they were added)
 \*   added: the WebService has been added to a container (routes registered or removed afterwards must be served
 \*   exactly like those that were there before: web_service.go Route / RemoveRoute on a live WebService);
@@ -58,9 +58,11 @@ EffP(S, b, append) ==
   IF append THEN B.implP \o S.wprod ELSE IF B.implP # <<>> THEN B.implP ELSE S.wprod
 EffC(S, b) == LET B == S.bs[b] IN IF B.implC # <<>> THEN B.implC ELSE S.wcons
 
+\* (the sub paths "" and "/" both name the root resource of the WebService)
+NormP(p) == IF p = "" THEN "/" ELSE p
 CanRegister(S, b) ==
   /\ S.bs[b].live
-  /\ ~\E i \in 1..Len(S.routes) : S.routes[i].m = S.bs[b].m /\ S.routes[i].p = S.bs[b].p
+  /\ ~\E i \in 1..Len(S.routes) : S.routes[i].m = S.bs[b].m /\ NormP(S.routes[i].p) = NormP(S.bs[b].p)
 
 \* ops are records [op, b, m, v]; Enabled says which the generators may issue
 Enabled(S, o) ==
